@@ -230,7 +230,7 @@ def deep_clone(v):
     if isinstance(v, VecV):
         return VecV(None if v.elems is None else [deep_clone(x) for x in v.elems], v.opaque, v.kind)
     if isinstance(v, SetV):
-        return SetV([deep_clone(x) for x in v.elems])
+        return type(v)([deep_clone(x) for x in v.elems])
     if isinstance(v, BoxV):
         return BoxV(Cell(deep_clone(v.cell.v)))
     if isinstance(v, Lazy):
